@@ -35,6 +35,8 @@ type c09SockSpec struct {
 	MaxPending  int
 	Rounds      [][]int // per round: picks among the unanswered requests (index modulo their number) to answer
 	Finals      []int   // form of the k-th final response (see c09SockFinal)
+	QueryBytes  int     // size of each request's query string
+	Deferred    bool    // back-pressure: the peer reads nothing until all N requests of the first fill have been accepted
 }
 
 func c09SockFinal(v primitive.ProtocolVersion, id int16, tag string, form int) *frame.Frame {
@@ -132,10 +134,15 @@ func c09SockSession(args []string, _ []byte) string {
 	}
 	var unanswered []pending
 	sent := 0
+	deferWire := false
 	accept := func(phase string) string {
 		sent++
 		tag := fmt.Sprintf("q%d", sent)
-		f := frame.NewFrame(v, client.ManagedStreamId, &message.Query{Query: tag})
+		query := tag
+		if spec.QueryBytes > len(tag) {
+			query = tag + strings.Repeat(".", spec.QueryBytes-len(tag))
+		}
+		f := frame.NewFrame(v, client.ManagedStreamId, &message.Query{Query: query})
 		var r client.InFlightRequest
 		var serr error
 		if err := within(T, "Send", func() error { r, serr = cc.Send(f); return nil }); err != nil {
@@ -153,6 +160,11 @@ func c09SockSession(args []string, _ []byte) string {
 				return fmt.Sprintf("%s: stream id %d handed out while request %s still carries it", phase, id, p.tag)
 			}
 		}
+		if deferWire {
+			// the peer is not reading yet: the wire is checked once the whole fill has been accepted
+			unanswered = append(unanswered, pending{r, id, tag})
+			return ""
+		}
 		// what travels on the wire
 		if s := peerDo(func(l *rawLink) string {
 			e, err := l.readEnvelope()
@@ -163,7 +175,7 @@ func c09SockSession(args []string, _ []byte) string {
 				return fmt.Sprintf("raw server: unexpected envelope opcode %#x", e.OpCode)
 			}
 			n := int(binary.BigEndian.Uint32(e.Body[:4]))
-			if 4+n > len(e.Body) || string(e.Body[4:4+n]) != tag {
+			if 4+n > len(e.Body) || strings.TrimRight(string(e.Body[4:4+n]), ".") != tag {
 				return fmt.Sprintf("raw server: expected request %s, got %q", tag, e.Body[4:min(len(e.Body), 4+n)])
 			}
 			if e.Stream != id {
@@ -223,13 +235,52 @@ func c09SockSession(args []string, _ []byte) string {
 		unanswered = append(unanswered[:k], unanswered[k+1:]...)
 		return ""
 	}
+	deferWire = spec.Deferred
 	for i := 0; i < spec.N; i++ {
 		if s := accept("fill"); s != "" {
+			if spec.Deferred {
+				s += " (the peer has not started reading: accepted frames wait in the connection's queue, whose capacity must cover the limit)"
+			}
 			return "FAIL: " + s
 		}
 	}
 	if s := refuse("full"); s != "" {
 		return "FAIL: " + s
+	}
+	if spec.Deferred {
+		deferWire = false
+		// now the peer reads everything that was accepted: one envelope per request, each with the id it was given
+		want := map[string]int16{}
+		for _, p := range unanswered {
+			want[p.tag] = p.id
+		}
+		if s := peerDo(func(l *rawLink) string {
+			for k := 0; k < spec.N; k++ {
+				e, err := l.readEnvelope()
+				if err != nil {
+					return fmt.Sprintf("raw server: reading request %d of %d: %v", k+1, spec.N, err)
+				}
+				if e.OpCode != 0x07 || len(e.Body) < 4 {
+					return fmt.Sprintf("raw server: unexpected envelope opcode %#x", e.OpCode)
+				}
+				n := int(binary.BigEndian.Uint32(e.Body[:4]))
+				if 4+n > len(e.Body) {
+					return "raw server: malformed QUERY"
+				}
+				tag := strings.TrimRight(string(e.Body[4:4+n]), ".")
+				id, ok := want[tag]
+				if !ok {
+					return fmt.Sprintf("raw server: request %q arrived twice or was never accepted", tag)
+				}
+				if e.Stream != id {
+					return fmt.Sprintf("request %s was accepted with stream id %d but travels with stream id %d", tag, id, e.Stream)
+				}
+				delete(want, tag)
+			}
+			return ""
+		}); s != "" {
+			return "FAIL: deferred fill: " + s
+		}
 	}
 	for ri, round := range spec.Rounds {
 		phase := fmt.Sprintf("round %d", ri+1)
@@ -283,6 +334,14 @@ func c09Socket(rt *rapid.T) {
 		spec.Rounds = append(spec.Rounds, rapid.SliceOfN(rapid.IntRange(0, 11), 1, spec.N).Draw(rt, "picks"))
 	}
 	spec.Finals = rapid.SliceOfN(rapid.IntRange(0, 3), 1, 6).Draw(rt, "finalForms")
+	if v != primitive.ProtocolVersion2 && rapid.IntRange(0, 11).Draw(rt, "backPressure") == 0 {
+		// a limit beyond the default 1024, requests large enough that the socket buffers cannot hold them all, and a peer
+		// that starts reading late: everything the limit allows must still be accepted
+		spec.N = rapid.SampledFrom([]int{1025, 1500, 2500}).Draw(rt, "bigN")
+		spec.QueryBytes = rapid.SampledFrom([]int{4096, 16384}).Draw(rt, "queryBytes")
+		spec.Deferred = true
+		spec.Rounds = nil
+	}
 	sj, _ := json.Marshal(spec)
 	verdict := isolated("c09sock", []string{string(sj)}, nil)
 	if strings.HasPrefix(verdict, "FAIL:") {
@@ -298,7 +357,7 @@ func c09Socket(rt *rapid.T) {
 	} else if spec.N > spec.MaxPending {
 		rel = "N>P"
 	}
-	rec.Case(true, stats.HashString("sock/"+string(sj)), func() string { return "socket: " + string(sj) }, "socket", "socket:"+rel, fmt.Sprintf("socket-version:%d", v))
+	rec.Case(true, stats.HashString("sock/"+string(sj)), func() string { return "socket: " + string(sj) }, "socket", "socket:"+rel, fmt.Sprintf("socket-version:%d", v), fmt.Sprintf("socket-back-pressure:%v", spec.Deferred))
 }
 
 func TestC09Socket(t *testing.T) { rapid.Check(t, c09Socket) }
